@@ -102,7 +102,7 @@ func runBatch(c *check, replay string) int {
 		}
 		item.Dropped = ""
 		if item.G == nil {
-			infra("replay %s has no grammar", rp)
+			continue // a replay of another engine listed for this property too
 		}
 		item.HasLexer, item.HasParser = flagsShape(&item)
 		b, err := batch.Build(env, filepath.Join(scratch, fmt.Sprintf("rb%d", i)), filepath.Join(verifDir, "h"), []*batch.Item{&item}, p.race)
@@ -155,6 +155,9 @@ func runBatch(c *check, replay string) int {
 		for _, it := range items {
 			if it.Dropped != "" {
 				m.classes["grammar_dropped:"+dropClass(it.Dropped)]++
+				if len(m.notes) < 12 {
+					m.notes = append(m.notes, fmt.Sprintf("dropped g%d (%s): %s | %s", it.Index, it.Dropped, oneLine(it.GoccOut, 160), oneLine(it.G.Source(), 200)))
+				}
 			}
 		}
 		m.classes["grammars_in_batch:"+p.name] += len(b.Live())
@@ -185,6 +188,16 @@ func runBatch(c *check, replay string) int {
 		wg.Wait()
 		before := len(m.violations)
 		for s, r := range results {
+			if strings.Contains(r.out, "WARNING: DATA RACE") {
+				dst := filepath.Join(verifDir, "replays", "found", fmt.Sprintf("%s-race-%s.txt", c.id, ev.Hash(raceSig(r.out))))
+				os.MkdirAll(filepath.Dir(dst), 0o755)
+				os.WriteFile(dst, []byte(r.out), 0o644)
+				fmt.Printf("VIOLATION property=%s replay=%s\n%s\n", c.id, dst, indent(raceExcerpt(r.out)))
+				code = 1
+				nviol++
+				results[s].err = nil
+				continue
+			}
 			if err := m.add(r.stat); err != nil {
 				infra("part %s shard %d wrote no stats: %v\n%s", p.name, s, err, lastLines(r.out, 30))
 			}
@@ -252,4 +265,41 @@ func flagsShape(it *batch.Item) (hasLexer, hasParser bool) {
 	}
 	hasParser = len(it.G.Prods) > 0
 	return
+}
+
+func oneLine(s string, n int) string {
+	s = strings.ReplaceAll(s, "\n", " / ")
+	if len(s) > n {
+		s = s[:n] + "…"
+	}
+	return s
+}
+
+func raceExcerpt(out string) string {
+	i := strings.Index(out, "WARNING: DATA RACE")
+	if i < 0 {
+		return ""
+	}
+	return firstN(out[i:], 40)
+}
+
+func firstN(s string, n int) string {
+	ls := strings.Split(s, "\n")
+	if len(ls) > n {
+		ls = ls[:n]
+	}
+	return strings.Join(ls, "\n")
+}
+
+// raceSig: the source lines named in the report, without addresses.
+func raceSig(out string) string {
+	var b strings.Builder
+	for _, l := range strings.Split(raceExcerpt(out), "\n") {
+		if strings.Contains(l, ".go:") {
+			f := strings.Fields(l)
+			b.WriteString(f[0])
+			b.WriteString(";")
+		}
+	}
+	return b.String()
 }
